@@ -123,9 +123,9 @@ func (P) Generate(g *core.Gen) {
 	keys := makeKeys(r, 5)
 	cs = append(cs, genRegress()...)
 	cs = append(cs, genLimits(g, r, keys)...)
-	cs = append(cs, genSoup(g, r, keys, g.N(7500, 150000))...)
-	cs = append(cs, genSigs(g, r, keys, g.N(4000, 90000))...)
-	cs = append(cs, genWitnessMisc(g, r, keys, g.N(2000, 45000))...)
+	cs = append(cs, genSoup(g, r, keys, g.N(7500, 300000))...)
+	cs = append(cs, genSigs(g, r, keys, g.N(4000, 180000))...)
+	cs = append(cs, genWitnessMisc(g, r, keys, g.N(2000, 90000))...)
 	tick("spends built")
 	emitSpends(g, cs)
 	tick("oracles resolved")
